@@ -314,3 +314,49 @@ def aborted_run_keeps_completed_snapshots_plus_failure_state(shape: int, who: bo
 def aborted_tightly_coupled_run_keeps_completed_snapshots_plus_failure_state(shape: int, who: bool, k: int, s0: int, pf: float, t0: float):
     """as above with tight coupling on: the node is written by the operator after the coupled iterations"""
     run_with_failure(shape, True, who, k, s0, pf, t0)
+
+
+# ----------------------------------------------------------------------------- history merge for a restart
+class SrcFile(H5File):
+    """source database file: items() as h5py (name, group) pairs"""
+
+    def items(self):
+        return [(k, self.groups[k]) for k in self.groups.keys()]
+
+
+class DstFile(H5File):
+    def copy(self, group, name):
+        """contract of h5py Group.copy(source, name): an identical group under that name; refuses an existing name"""
+        key = name[1:] if name[:1] == "/" else name
+        if key in self.groups:
+            raise ValueError("h5py: destination exists")
+        self.groups[key] = new(H5Group, name=name, attrs=dict(group.attrs), state=group.state)
+
+
+MERGE_GRID = ((0, 0), (0, 1), (0, 2), (1, 0), (1, 1), (2, 0))
+
+
+@lemma(gen={"mask": (1, 63), "at": (0, 5), "v": (0, 99)})
+def merge_copies_exactly_the_steps_before_the_restart_point(mask: int, at: int, v: int, extra: bool):
+    """source = any non-empty subset (6-bit mask, enumerated) of six time steps over 3 cycles that contains the restart
+    step `at` (enumerated), written in reverse order, plus a non-snapshot group; group contents symbolic"""
+    mask = choose(mask, 1, 63)
+    at = choose(at, 0, 5)
+    assume((mask // 2 ** at) % 2 == 1)
+    present = [MERGE_GRID[k] for k in range(6) if (mask // 2 ** k) % 2 == 1]
+    src = new(SrcFile, groups={}, attrs={}, flushed=0, isopen=True)
+    for k, (c, n) in enumerate(reversed(present)):
+        g = src.create_group(dbmod.getH5GroupName(c, n))
+        g.state = v + 7 * c + n
+    if extra:
+        src.create_group("inputs")
+    dst = new(DstFile, groups={}, attrs={}, flushed=0, isopen=True)
+    inputDB = new(Database, h5db=src, _versionMinor=4, _versionMajor=3)
+    db = new(Database, h5db=dst)
+    startCycle, startNode = MERGE_GRID[at]
+    db.mergeHistory(inputDB, startCycle, startNode)
+    want = [(c, n) for (c, n) in present if (c, n) < (startCycle, startNode)]
+    assert list(db.genTimeSteps()) == want, "exactly the steps before the restart point, nothing else"
+    for c, n in want:
+        assert dst[dbmod.getH5GroupName(c, n)].state == v + 7 * c + n, "unchanged"
+    assert len(dst.groups) == len(want)
